@@ -89,6 +89,13 @@ type Prop interface {
 	Subprocess() bool
 }
 
+// Splitter is optionally implemented by sub-process props whose cases are
+// batches: when a batch kills its worker (or hangs) the driver runs the
+// sub-cases one by one to attribute the crash.
+type Splitter interface {
+	Split(c json.RawMessage) []json.RawMessage
+}
+
 // Assumer is optionally implemented to list assumptions in evidence.
 type Assumer interface{ Assumptions() []string }
 
@@ -212,6 +219,28 @@ func RunCheck(p Prop, o Options) int {
 				var r Result
 				if p.Subprocess() {
 					r, sp = runInSubproc(sp, o.Self, p.ID(), j.c)
+					if r.Crash != "" {
+						if spl, ok := p.(Splitter); ok {
+							if subs := spl.Split(j.c); len(subs) > 0 {
+								// attribute the crash: run the members of the batch one by one
+								var agg Result
+								for _, sc := range subs {
+									var sr Result
+									sr, sp = runInSubproc(sp, o.Self, p.ID(), sc)
+									for i := range sr.Viols {
+										if len(sr.Viols[i].Case) == 0 {
+											sr.Viols[i].Case = sc
+										}
+									}
+									agg.Viols = append(agg.Viols, sr.Viols...)
+									agg.Evals += sr.Evals
+									agg.Nontriv += sr.Nontriv
+									agg.Outcomes = append(agg.Outcomes, sr.Outcomes...)
+								}
+								r = agg
+							}
+						}
+					}
 				} else {
 					r = SafeRun(p, j.c)
 				}
@@ -603,7 +632,7 @@ func (s *subproc) kill() {
 }
 
 // CaseDeadline is the per-case deadline in worker mode.
-var CaseDeadline = 10 * time.Second
+var CaseDeadline = 30 * time.Second
 
 // runInSubproc runs one case in a worker, (re)starting it as needed. A worker
 // death or deadline is turned into a violation with a crash signature.
